@@ -18,6 +18,7 @@ cp -r /verif/miri $root/miri
 sed -i "s#/repo/#$root/repo/#g" $root/harness/dv/Cargo.toml $root/harness/checks/Cargo.toml $root/harness/eval/Cargo.toml $root/harness/fuzz/Cargo.toml 2>/dev/null
 sed -i "s#^target-dir.*#target-dir = \"${MUT_TARGET:-/verif/target/mut}\"#" $root/harness/.cargo/config.toml
 export CARGO_NET_OFFLINE=true RUSTFLAGS="--cfg dashu_verif" DV_OUT=$root/out DV_HARNESS=$root/harness DV_REPO=$root/repo
+export DV_EVAL_TARGET=${MUT_TARGET:-/verif/target/mut}-eval DV_MACROGEN=${MUT_TARGET:-/verif/target/mut}-macrogen
 export DV_MIRI=$root/miri DV_MIRI_TARGET=${MUT_TARGET:-/verif/target/mut}-miri DV_SCRATCH=$root/out
 rc_all=0
 for id in "$@"; do
